@@ -18,6 +18,9 @@ INFO_DEFS = {
     "DB": '##INFO=<ID=DB,Number=0,Type=Flag,Description="flag">',
     "END": '##INFO=<ID=END,Number=1,Type=Integer,Description="End position">',
     "SVTYPE": '##INFO=<ID=SVTYPE,Number=1,Type=String,Description="SV type">',
+    # only ever used undeclared (`undeclared_info`): the harness's own copy of the input has to declare them too
+    "AC": '##INFO=<ID=AC,Number=A,Type=Integer,Description="Allele count">',
+    "AN": '##INFO=<ID=AN,Number=A,Type=Integer,Description="Allele number">',
 }
 FMT_DEFS = {
     "DP": '##FORMAT=<ID=DP,Number=1,Type=Integer,Description="Depth">',
@@ -39,6 +42,12 @@ ODD_DEFS = {
     "AD": '##FORMAT=<ID=AD,Number=R,Type=Integer,Description="AD as the VCF spec declares it">',
     "PQ": '##FORMAT=<ID=PQ,Number=1,Type=Integer,Description="PQ as Integer">',
 }
+# further mis-declarations of the phase tags themselves (only with `odd_tag_defs`): replaced, not refused
+ODD_TAG_DEFS = {
+    "HP": '##FORMAT=<ID=HP,Number=1,Type=String,Description="HP with Number=1">',
+    "PS": '##FORMAT=<ID=PS,Number=.,Type=Integer,Description="PS with Number=.">',
+}
+PS_STRING = '##FORMAT=<ID=PS,Number=1,Type=String,Description="PS as String: whatshap refuses the file">'
 EXTRA_HEADER = [
     "##phasing=none",
     "##source=c04gen",
@@ -57,7 +66,7 @@ def gen_case(rng, scale=1):
                   recomb_prob=0.0, kinds=rng.choice([["snv"], ["snv", "snv", "ins", "del", "mnp"]]), shuffle_samples=False)
     distrust = rng.random() < 0.3
     params["gt_error_prob"] = 0.15 if distrust else 0.0
-    return {"kind": "c04", "gen_seed": rng.randrange(1 << 40), "params": params,
+    case = {"kind": "c04", "gen_seed": rng.randrange(1 << 40), "params": params,
             "vcf": {"pre": rng.choice(["none", "none", "PS", "HP", "per-sample"]), "decoys": rng.random() < 0.7,
                     "odd_gt": rng.random() < 0.5, "phasing_line": rng.random() < 0.5,
                     "contig_header": rng.random() < 0.8, "odd_defs": rng.random() < 0.3, "undefined_gq": rng.random() < 0.2,
@@ -66,6 +75,24 @@ def gen_case(rng, scale=1):
             "opts": {"tag": rng.choice(["PS", "HP"]), "distrust": distrust, "include_hom": bool(distrust and rng.random() < 0.5),
                      "ped": bool(n_trios), "only_snvs": rng.random() < 0.25,
                      "sample_sel": rng.random() < 0.4, "chrom_sel": rng.random() < 0.35}}
+    v, o = case["vcf"], case["opts"]
+    # file-level shapes (Model/C04File.lean)
+    v["split_chrom"] = params["n_contigs"] > 1 and rng.random() < 0.3     # a chromosome name comes back later in the file
+    v["many_alts"] = rng.random() < 0.25                                   # a record with >= 16 ALT alleles
+    v["odd_tag_defs"] = rng.random() < 0.2
+    v["undeclared_info"] = rng.random() < 0.25
+    v["phasing_twice"] = rng.random() < 0.4
+    # F60 (fixes/F60.patch): a FILTER used in the body but not declared makes the unpatched whatshap abort while writing the
+    # first such record; generated only on request so that the check stays silent on the unpatched tree
+    draw = rng.random() < 0.3
+    v["undeclared_filter"] = draw and bool(os.environ.get("VERIF_C04_F60"))
+    r = rng.random()
+    # inputs the header pipeline refuses (VcfError -> clean command-line error, no output)
+    v["refused"] = "undef-format" if r < 0.04 else "undef-info" if r < 0.08 else "ps-string" if r < 0.12 else None
+    o["out_kind"] = rng.choice(["file", "file", "stdout", "gz", "preexisting"])
+    o["bad_sample"] = rng.random() < 0.04
+    o["use_ped_samples"] = bool(n_trios) and not o["sample_sel"] and not o["bad_sample"] and rng.random() < 0.3
+    return case
 
 
 def _fmt_value(rng, key, n_alt, ploidy=2):
@@ -188,7 +215,9 @@ def build_inputs(case, d):
                                                       "HP": rng.choice(["88-1,88-2", "."])}, 2) for _ in sc.samples], **site_extras(2)))
             elif kind == "sym":
                 ex = site_extras(1)
-                ex["info"] = f"END={p + 5};SVTYPE=DEL" + ("" if ex["info"] == "." else ";" + ex["info"])
+                if not (v.get("undeclared_info") and rng.random() < 0.5):
+                    # (otherwise the symbolic allele comes without END: `missing_headers` asks for the END definition anyway)
+                    ex["info"] = f"END={p + 5};SVTYPE=DEL" + ("" if ex["info"] == "." else ";" + ex["info"])
                 recs.append(dict(chrom=r["chrom"], pos=p, ref=ref, alts=["<DEL>"], format=keys,
                                  calls=[other_fields({"GT": rng.choice(["0/1", "0|1", "1/1", "0/0"]), "PS": "99"}, 1) for _ in sc.samples], **ex))
             elif kind == "noalt":
@@ -198,6 +227,19 @@ def build_inputs(case, d):
                 alt = rng.choice([x for x in "ACGT" if x != ref])
                 recs.append(dict(chrom=r["chrom"], pos=p, ref=ref, alts=[alt], format=list(fmt_keys),
                                  calls=[other_fields({}, 1) for _ in sc.samples], **site_extras(1)))
+    if v.get("many_alts") and recs:
+        # a record with 16 or more ALT alleles (more than the reader accepts even with multi-allelic support), in front
+        # of or behind an ordinary record at the same position
+        k = rng.randrange(len(recs))
+        base = recs[k]
+        n_alt = rng.choice([16, 17])
+        ref0 = base["ref"][0]
+        behind = rng.choice([0, 1])
+        recs.insert(k + behind,
+                    dict(chrom=base["chrom"], pos=base["pos"], ref=ref0,
+                         alts=[ref0 + "C" * j + "G" for j in range(n_alt)], format=keys,
+                         calls=[other_fields({"GT": rng.choice(["1/2", "0|3", "0/1", "./."]), "PS": rng.choice(["55", "."])}, n_alt)
+                                for _ in sc.samples], **site_extras(n_alt)))
     if v.get("skipped_only_last"):
         # a last chromosome on which every record is of a kind the reader skips (multi-ALT, no ALT): whatshap sees no
         # variant at all there, yet all its records belong in the output
@@ -213,15 +255,49 @@ def build_inputs(case, d):
             else:
                 recs.append(dict(chrom="chrZ", pos=p, ref=ref, alts=[], format=keys,
                                  calls=[other_fields({"GT": rng.choice(["0/0", "./."])}, 0) for _ in sc.samples], **site_extras(0)))
+    if v.get("split_chrom"):
+        # the tail of the first chromosome comes back after all other chromosomes (not sorted by contig, still a VCF):
+        # reader and writer both see it as one more table
+        first = recs[0]["chrom"]
+        own = [r for r in recs if r["chrom"] == first]
+        cuts = [i for i in range(1, len(own)) if own[i]["pos"] > own[i - 1]["pos"]]
+        if cuts and len({r["chrom"] for r in recs}) > 1:
+            cut = rng.choice(cuts)
+            tail = own[cut:]
+            recs = [r for r in recs if not any(r is t for t in tail)] + tail
+    if v.get("undeclared_filter"):
+        for r in recs:
+            if rng.random() < 0.3:
+                r["filter"] = rng.choice(["q99", "q10;q99", "lowq"])
+    refused = v.get("refused")
+    if refused == "undef-format" and recs:
+        r0 = rng.choice(recs)
+        r0["format"] = list(r0["format"]) + ["XQ"]           # neither declared nor predefined
+        for c in r0["calls"]:
+            c["XQ"] = "7"
+    elif refused == "undef-info" and recs:
+        r0 = rng.choice(recs)
+        r0["info"] = "XZ=3" if r0["info"] == "." else r0["info"] + ";XZ=3"
     fmt_defs, info_defs = {}, {}
-    used_fmt = {k for r in recs for k in r["format"]}
+    used_fmt = {k for r in recs for k in r["format"]} - {"XQ"}
     for k in sorted(used_fmt - {"GT"}):
         if k == "GQ" and v["undefined_gq"]:
             continue                      # predefined: whatshap adds the definition
         fmt_defs[k] = ODD_DEFS[k] if (v["odd_defs"] and k in ODD_DEFS) else FMT_DEFS[k]
-    for k in info_keys + (["END", "SVTYPE"] if any(r["alts"] == ["<DEL>"] for r in recs) else []):
+        if v.get("odd_tag_defs") and k in ODD_TAG_DEFS:
+            fmt_defs[k] = ODD_TAG_DEFS[k]
+    if refused == "ps-string":
+        fmt_defs["PS"] = PS_STRING
+    for k in info_keys + (["END", "SVTYPE"] if any(r["alts"] == ["<DEL>"] for r in recs) and not v.get("undeclared_info") else []):
         info_defs[k] = INFO_DEFS[k]
+    if v.get("undeclared_info"):
+        # predefined INFO keys used without a declaration (END/SVTYPE above, AC/AN here): whatshap adds the definitions
+        for r in recs:
+            if rng.random() < 0.3:
+                r["info"] = "AC=1;AN=2" if r["info"] == "." else r["info"] + ";AC=1;AN=2"
     extra = [l for l in EXTRA_HEADER if v["phasing_line"] or not l.startswith("##phasing")]
+    if v.get("phasing_twice") and v["phasing_line"]:
+        extra.append("##phasing=partial")        # only the first `phasing` line is removed
     os.makedirs(d, exist_ok=True)
     fa, bam, vcf = (os.path.join(d, "in" + e) for e in (".fasta", ".bam", ".vcf"))
     sim.write_fasta(fa, sc.contigs)
